@@ -528,6 +528,94 @@ theorem delete_restore (sc : Schema) (cfg : Cfg) (t : Table) (args : Args)
       intro hnil; simp [Item.nonEmpty, hnil] at hne
     exact undo_delete_core sc cfg t (fun r => matches_ r args w) hu hsh hnn u hp
 
+/-! ### UPDATE / DELETE … ORDER BY … LIMIT (rows selected by key membership) -/
+
+/-- the after image when the selection is by key membership: the selected rows of the new table -/
+theorem update_after_sel (sc : Schema) (t : Table) (sel : List Key) (f : Row → Row)
+    (hkey : ∀ r ∈ t, keyOf sc (f r) = keyOf sc r) :
+    (updated t (fun r => sel.contains (keyOf sc r)) f).filter (fun r => sel.contains (keyOf sc r)) =
+      (t.filter fun r => sel.contains (keyOf sc r)).map f := by
+  simp only [updated, List.filter_map]
+  have h1 : t.filter ((fun r => sel.contains (keyOf sc r)) ∘
+      fun r => if sel.contains (keyOf sc r) then f r else r) = t.filter fun r => sel.contains (keyOf sc r) := by
+    apply List.filter_congr
+    intro r hr
+    simp only [Function.comp]
+    rw [updated_keyOf sc t (fun r => sel.contains (keyOf sc r)) f hkey r hr]
+  rw [h1]
+  apply List.map_congr_left
+  intro r hr
+  have hm : sel.contains (keyOf sc r) = true := (List.mem_filter.1 hr).2
+  simp only [hm, if_true]
+
+theorem updateLim_restore (sc : Schema) (cfg : Cfg) (t : Table) (args : Args) (sets : List (Nat × SetE))
+    (w : Cond) (ord : List (Nat × Bool)) (lim : Nat) (t' : Table) (item : Item) (keys : List Key)
+    (hu : PkUnique sc t) (hsh : ∀ r ∈ t, r.length = sc.ncols)
+    (hs : ∀ p ∈ sets, p.1 < sc.ncols ∧ p.1 ∉ sc.pk)
+    (h : stmtPhase1 sc cfg t args (.updateLim sets w ord lim) = .ok (t', item, keys)) :
+    StmtRestores sc cfg t t' item := by
+  have hkey : ∀ r ∈ t, keyOf sc (applySets args sets r) = keyOf sc r :=
+    fun r _ => applySets_keyOf sc args sets r (fun p hp => (hs p hp).2)
+  have hlen : ∀ r ∈ t, (applySets args sets r).length = r.length :=
+    fun r _ => applySets_length args sets r
+  have hch : ∀ r ∈ t, ∀ j, j < r.length → (j ∈ updateCols sc cfg sets ∧ j ∉ sc.pk) ∨
+      (applySets args sets r).getD j .null = r.getD j .null := by
+    intro r _ j _
+    by_cases hj : j ∈ sets.map (·.1)
+    · exact Or.inl (mem_updateCols sc cfg sets hs j hj)
+    · exact Or.inr (applySets_getD args sets r j hj)
+  have hnk : namesKey sc sets = false := namesKey_false_of (fun p hp => (hs p hp).2)
+  simp only [stmtPhase1, hnk, Bool.false_eq_true, if_false, apply] at h
+  generalize hsel : limitedKeys sc t args w ord lim = sel at h
+  have haft := update_after_sel sc t sel (applySets args sets) hkey
+  simp only [updated] at haft
+  rw [haft] at h
+  simp only [Except.ok.injEq, Prod.mk.injEq] at h
+  obtain ⟨rfl, rfl, rfl⟩ := h
+  refine ⟨⟨?_, ?_⟩, ?_, ?_⟩
+  · have := updated_keys sc t (fun r => sel.contains (keyOf sc r)) (applySets args sets) hkey
+    simp only [updated] at this
+    simp only [PkUnique, this]; exact hu
+  · intro r hr
+    obtain ⟨r0, hr0, rfl⟩ := List.mem_map.1 hr
+    split
+    · rw [applySets_length]; exact hsh r0 hr0
+    · exact hsh r0 hr0
+  · intro hne
+    have hnil : t.filter (fun r => sel.contains (keyOf sc r)) = [] := by
+      simpa [Item.nonEmpty, List.isEmpty_iff] using hne
+    have := updated_eq_self t (fun r => sel.contains (keyOf sc r)) (applySets args sets)
+      (by rw [hnil]; intro r hr; cases hr)
+    simpa [updated] using this
+  · intro hne u hp
+    have hnn : t.filter (fun r => sel.contains (keyOf sc r)) ≠ [] := by
+      intro hnil; rw [hnil] at hne; simp [Item.nonEmpty] at hne
+    exact undo_update_core sc t (fun r => sel.contains (keyOf sc r)) (applySets args sets) cfg
+      (updateCols sc cfg sets) hu hlen hkey hch hnn u hp
+
+theorem deleteLim_restore (sc : Schema) (cfg : Cfg) (t : Table) (args : Args)
+    (w : Cond) (ord : List (Nat × Bool)) (lim : Nat) (t' : Table) (item : Item) (keys : List Key)
+    (hu : PkUnique sc t) (hsh : ∀ r ∈ t, r.length = sc.ncols)
+    (h : stmtPhase1 sc cfg t args (.deleteLim w ord lim) = .ok (t', item, keys)) :
+    StmtRestores sc cfg t t' item := by
+  simp only [stmtPhase1, apply, Except.ok.injEq, Prod.mk.injEq] at h
+  generalize hsel : limitedKeys sc t args w ord lim = sel at h
+  obtain ⟨rfl, rfl, rfl⟩ := h
+  refine ⟨⟨?_, ?_⟩, ?_, ?_⟩
+  · exact nodup_map_filter _ _ _ hu
+  · intro r hr; exact hsh r (List.mem_filter.1 hr).1
+  · intro hne
+    have hnil : t.filter (fun r => sel.contains (keyOf sc r)) = [] := by
+      simpa [Item.nonEmpty, List.isEmpty_iff] using hne
+    rw [List.filter_eq_self]
+    intro r hr
+    rw [List.filter_eq_nil_iff] at hnil
+    simpa using hnil r hr
+  · intro hne u hp
+    have hnn : t.filter (fun r => sel.contains (keyOf sc r)) ≠ [] := by
+      intro hnil; rw [hnil] at hne; simp [Item.nonEmpty] at hne
+    exact undo_delete_core sc cfg t (fun r => sel.contains (keyOf sc r)) hu hsh hnn u hp
+
 /-! ### INSERT -/
 
 theorem go_some (sc : Schema) : ∀ (news : List Row) (t t' : Table), apply.go sc t news = some t' →
@@ -636,32 +724,7 @@ theorem insert_restore (sc : Schema) (cfg : Cfg) (t : Table) (args : Args)
         exact undo_insert_core sc cfg t _ hu' hnn u hp
     · cases heq
 
-/-! ### one statement, any kind -/
-
-/-- what the SQL layer guarantees about a statement (same as `Props.C01.WFStmt`) -/
-def StmtWF (sc : Schema) : Stmt → Prop
-  | .update sets _ => ∀ p ∈ sets, p.1 < sc.ncols ∧ p.1 ∉ sc.pk
-  | .delete _ => True
-  | .insert rows => ∀ es ∈ rows, es.length = sc.ncols
-  | .failing _ => True
-  | .upsert _ _ => False     -- INSERT … ON DUPLICATE KEY UPDATE: not covered by the restore theorems
-  | .updateLim _ _ _ _ => False   -- ORDER BY / LIMIT forms: correspondence only
-  | .deleteLim _ _ _ => False
-
-theorem stmt_restore (sc : Schema) (cfg : Cfg) (t : Table) (args : Args) (s : Stmt)
-    (t' : Table) (item : Item) (keys : List Key)
-    (hu : PkUnique sc t) (hsh : ∀ r ∈ t, r.length = sc.ncols) (hs : StmtWF sc s)
-    (h : stmtPhase1 sc cfg t args s = .ok (t', item, keys)) : StmtRestores sc cfg t t' item := by
-  cases s with
-  | update sets w => exact update_restore sc cfg t args sets w t' item keys hu hsh hs h
-  | delete w => exact delete_restore sc cfg t args w t' item keys hu hsh h
-  | insert rows => exact insert_restore sc cfg t args rows t' item keys hu hsh hs h
-  | failing s => simp [stmtPhase1] at h
-  | upsert rows assign => exact absurd hs (by simp [StmtWF])
-  | updateLim sets w ord lim => exact absurd hs (by simp [StmtWF])
-  | deleteLim w ord lim => exact absurd hs (by simp [StmtWF])
-
-/-! ### one branch -/
+/-! ### folding the compensation over a list of items -/
 
 theorem undoStep_ok (sc : Schema) (cfg : Cfg) (u u' : Table) (it : Item) (res : UndoRes)
     (h : undoItem sc cfg u it = (u', res)) (hr : res = .done ∨ res = .skipped) :
@@ -690,9 +753,406 @@ theorem undoBranch_of_fold (sc : Schema) (cfg : Cfg) (u u' : Table) (b : Branch)
     (h : undoFold sc cfg u b.items.reverse = (u', true)) : undoBranch sc cfg u b = (u', true) := by
   simp [undoBranch, h]
 
-theorem extraItems_wf (sc : Schema) (t t' : Table) (args : Args) (s : Stmt) (hs : StmtWF sc s) :
-    extraItems sc t t' args s = [] := by
-  cases s <;> first | rfl | exact absurd hs (by simp [StmtWF])
+theorem undoFold_append_ok (sc : Schema) (cfg : Cfg) (u u1 : Table) (l1 l2 : List Item)
+    (h : undoFold sc cfg u l1 = (u1, true)) : undoFold sc cfg u (l1 ++ l2) = undoFold sc cfg u1 l2 := by
+  simp only [undoFold, List.foldl_append] at h ⊢
+  rw [h]
+
+/-! ### INSERT … ON DUPLICATE KEY UPDATE -/
+
+/-- what ON DUPLICATE KEY UPDATE does to the stored row `old` when the new row is `r` -/
+def dupUpd (sc : Schema) (assign : List (Nat × UpSrc)) (r old : Row) : Row :=
+  if keyOf sc old == keyOf sc r then
+    assign.foldl (fun acc p => acc.set p.1 (match p.2 with | .values => r.getD p.1 .null | .lit v => v)) old
+  else old
+
+theorem upsertRow_eq (sc : Schema) (assign : List (Nat × UpSrc)) (t : Table) (r : Row) :
+    upsertRow sc assign t r =
+      if (lookup sc t (keyOf sc r)).isSome then t.map (dupUpd sc assign r) else t ++ [r] := by
+  unfold upsertRow
+  cases lookup sc t (keyOf sc r) with
+  | none => rfl
+  | some x => rfl
+
+theorem setFold_length (vals : Nat × UpSrc → Val) (assign : List (Nat × UpSrc)) (old : Row) :
+    (assign.foldl (fun acc p => acc.set p.1 (vals p)) old).length = old.length := by
+  induction assign generalizing old with
+  | nil => rfl
+  | cons p ps ih => simp only [List.foldl_cons]; rw [ih]; simp
+
+theorem setFold_getD (vals : Nat × UpSrc → Val) (assign : List (Nat × UpSrc)) (old : Row) (j : Nat)
+    (hj : j ∉ assign.map (·.1)) :
+    (assign.foldl (fun acc p => acc.set p.1 (vals p)) old).getD j .null = old.getD j .null := by
+  induction assign generalizing old with
+  | nil => rfl
+  | cons p ps ih =>
+    simp only [List.map_cons, List.mem_cons, not_or] at hj
+    simp only [List.foldl_cons]
+    rw [ih _ hj.2, getD_set]
+    simp [Ne.symm hj.1]
+
+theorem dupUpd_length (sc : Schema) (assign : List (Nat × UpSrc)) (r old : Row) :
+    (dupUpd sc assign r old).length = old.length := by
+  unfold dupUpd
+  split
+  · exact setFold_length _ assign old
+  · rfl
+
+theorem dupUpd_keyOf (sc : Schema) (assign : List (Nat × UpSrc)) (ha : ∀ p ∈ assign, p.1 ∉ sc.pk) (r old : Row) :
+    keyOf sc (dupUpd sc assign r old) = keyOf sc old := by
+  unfold dupUpd
+  split
+  · apply keyOf_congr
+    intro i hi
+    apply setFold_getD
+    intro hmem
+    obtain ⟨p, hp, rfl⟩ := List.mem_map.1 hmem
+    exact ha p hp hi
+  · rfl
+
+theorem dupUpd_other (sc : Schema) (assign : List (Nat × UpSrc)) (r old : Row) (h : keyOf sc old ≠ keyOf sc r) :
+    dupUpd sc assign r old = old := by
+  simp [dupUpd, h]
+
+/-- the shape of the table after INSERT … ON DUPLICATE KEY UPDATE: the stored rows, each possibly
+    changed in non-key columns (only rows whose key is among the new rows' keys), followed by the rows
+    that were inserted (new keys, pairwise distinct) -/
+theorem upsert_fold (sc : Schema) (assign : List (Nat × UpSrc)) (ha : ∀ p ∈ assign, p.1 ∉ sc.pk) :
+    ∀ (news : List Row) (t : Table), ∃ (g : Row → Row) (ins : List Row),
+      news.foldl (upsertRow sc assign) t = t.map g ++ ins ∧
+      (∀ r, keyOf sc (g r) = keyOf sc r ∧ (g r).length = r.length) ∧
+      (∀ r, keyOf sc r ∉ news.map (keyOf sc) → g r = r) ∧
+      (∀ x ∈ ins, keyOf sc x ∈ news.map (keyOf sc) ∧ keyOf sc x ∉ t.map (keyOf sc) ∧
+        ∃ r ∈ news, x.length = r.length) ∧
+      (ins.map (keyOf sc)).Nodup := by
+  intro news
+  induction news with
+  | nil =>
+    intro t
+    refine ⟨id, [], by simp, fun r => ⟨rfl, rfl⟩, fun _ _ => rfl, ?_, by simp⟩
+    intro x hx; cases hx
+  | cons r rs ih =>
+    intro t
+    simp only [List.foldl_cons]
+    rw [upsertRow_eq]
+    by_cases hl : (lookup sc t (keyOf sc r)).isSome = true
+    · simp only [hl, if_true]
+      obtain ⟨g, ins, h1, h2, h3, h4, h5⟩ := ih (t.map (dupUpd sc assign r))
+      refine ⟨g ∘ dupUpd sc assign r, ins, by simpa [List.map_map] using h1, ?_, ?_, ?_, h5⟩
+      · intro x
+        simp only [Function.comp]
+        exact ⟨(h2 _).1.trans (dupUpd_keyOf sc assign ha r x), (h2 _).2.trans (dupUpd_length sc assign r x)⟩
+      · intro x hx
+        simp only [List.map_cons, List.mem_cons, not_or] at hx
+        simp only [Function.comp]
+        rw [dupUpd_other sc assign r x hx.1]
+        exact h3 x hx.2
+      · intro x hx
+        obtain ⟨a, b, c, hc, hc'⟩ := h4 x hx
+        refine ⟨by simp [a], ?_, c, by simp [hc], hc'⟩
+        intro hmem
+        apply b
+        obtain ⟨y, hy, hyk⟩ := List.mem_map.1 hmem
+        exact List.mem_map.2 ⟨dupUpd sc assign r y, List.mem_map.2 ⟨y, hy, rfl⟩,
+          (dupUpd_keyOf sc assign ha r y).trans hyk⟩
+    · simp only [hl, Bool.false_eq_true, if_false]
+      have hfresh : keyOf sc r ∉ t.map (keyOf sc) := by
+        intro hmem
+        obtain ⟨x, hx, hxk⟩ := List.mem_map.1 hmem
+        apply hl
+        simp only [lookup, List.find?_isSome]
+        exact ⟨x, hx, by simp [hxk]⟩
+      obtain ⟨g, ins, h1, h2, h3, h4, h5⟩ := ih (t ++ [r])
+      refine ⟨g, g r :: ins, by simpa using h1, h2, ?_, ?_, ?_⟩
+      · intro x hx
+        simp only [List.map_cons, List.mem_cons, not_or] at hx
+        exact h3 x hx.2
+      · intro x hx
+        rcases List.mem_cons.1 hx with rfl | hx
+        · refine ⟨by simp [(h2 r).1], by rw [(h2 r).1]; exact hfresh, r, by simp, (h2 r).2⟩
+        · obtain ⟨a, b, c, hc, hc'⟩ := h4 x hx
+          refine ⟨by simp [a], ?_, c, by simp [hc], hc'⟩
+          intro hmem; apply b; simp [hmem]
+      · simp only [List.map_cons, List.nodup_cons]
+        refine ⟨?_, h5⟩
+        rw [(h2 r).1]
+        intro hmem
+        obtain ⟨x, hx, hxk⟩ := List.mem_map.1 hmem
+        apply (h4 x hx).2.1
+        simp [hxk]
+
+
+section UpsertShape
+variable (sc : Schema) (t : Table) (K : List Key) (g : Row → Row) (ins : List Row)
+
+theorem ups_filter_sel (hg : ∀ r, keyOf sc (g r) = keyOf sc r) (hins : ∀ x ∈ ins, keyOf sc x ∈ K) :
+    (t.map g ++ ins).filter (fun r => K.contains (keyOf sc r)) =
+      (t.filter fun r => K.contains (keyOf sc r)).map g ++ ins := by
+  rw [List.filter_append, List.filter_map]
+  congr 1
+  · congr 1
+    apply List.filter_congr
+    intro r _
+    simp only [Function.comp, hg r]
+  · rw [List.filter_eq_self]
+    intro x hx
+    simpa using hins x hx
+
+theorem ups_filter_hit (hit : List Row) (hsub : ∀ r ∈ hit, r ∈ t) (hg : ∀ r, keyOf sc (g r) = keyOf sc r)
+    (hins : ∀ x ∈ ins, keyOf sc x ∉ t.map (keyOf sc)) :
+    (hit.map g ++ ins).filter (fun r => (hit.map (keyOf sc)).contains (keyOf sc r)) = hit.map g := by
+  rw [List.filter_append, List.filter_eq_self.2, List.filter_eq_nil_iff.2, List.append_nil]
+  · intro x hx hc
+    simp only [List.contains_eq_mem, List.mem_map, decide_eq_true_eq] at hc
+    obtain ⟨r, hr, hrk⟩ := hc
+    exact hins x hx (List.mem_map.2 ⟨r, hsub r hr, hrk⟩)
+  · intro x hx
+    obtain ⟨r, hr, rfl⟩ := List.mem_map.1 hx
+    simp only [List.contains_eq_mem, List.mem_map, decide_eq_true_eq]
+    exact ⟨r, hr, (hg r).symm⟩
+
+theorem ups_filter_ins (hu : PkUnique sc t) (hg : ∀ r, keyOf sc (g r) = keyOf sc r)
+    (hins : ∀ x ∈ ins, keyOf sc x ∈ K ∧ keyOf sc x ∉ t.map (keyOf sc)) :
+    (t.map g ++ ins).filter (fun r => K.contains (keyOf sc r) &&
+      !((t.filter fun r => K.contains (keyOf sc r)).map (keyOf sc)).contains (keyOf sc r)) = ins := by
+  rw [List.filter_append, List.filter_eq_nil_iff.2, List.filter_eq_self.2, List.nil_append]
+  · intro x hx
+    have h1 : K.contains (keyOf sc x) = true := by simpa using (hins x hx).1
+    have h2 : ((t.filter fun r => K.contains (keyOf sc r)).map (keyOf sc)).contains (keyOf sc x) = false := by
+      rw [Bool.eq_false_iff]
+      intro hc
+      simp only [List.contains_eq_mem, List.mem_map, decide_eq_true_eq] at hc
+      obtain ⟨r, hr, hrk⟩ := hc
+      exact (hins x hx).2 (List.mem_map.2 ⟨r, (List.mem_filter.1 hr).1, hrk⟩)
+    rw [h1, h2]; rfl
+  · intro x hx
+    obtain ⟨r, hr, rfl⟩ := List.mem_map.1 hx
+    rw [hg r, contains_key_filter (keyOf sc) (fun r => K.contains (keyOf sc r)) t hu r hr]
+    cases K.contains (keyOf sc r) <;> simp
+
+theorem ups_pkUnique (hu : PkUnique sc t) (hg : ∀ r, keyOf sc (g r) = keyOf sc r)
+    (hins : ∀ x ∈ ins, keyOf sc x ∉ t.map (keyOf sc)) (hnd : (ins.map (keyOf sc)).Nodup) :
+    PkUnique sc (t.map g ++ ins) := by
+  have hk : (t.map g).map (keyOf sc) = t.map (keyOf sc) := by
+    rw [List.map_map]; exact List.map_congr_left (fun r _ => hg r)
+  simp only [PkUnique, List.map_append, List.nodup_append, hk]
+  refine ⟨hu, hnd, ?_⟩
+  intro a ha b hb hab
+  obtain ⟨x, hx, rfl⟩ := List.mem_map.1 hb
+  exact hins x hx (hab ▸ ha)
+
+theorem ups_map_eq_updated (hfix : ∀ r, keyOf sc r ∉ K → g r = r) :
+    t.map g = updated t (fun r => K.contains (keyOf sc r)) g := by
+  unfold updated
+  apply List.map_congr_left
+  intro r _
+  by_cases hm : K.contains (keyOf sc r) = true
+  · simp only [hm, if_true]
+  · have : keyOf sc r ∉ K := by simpa using hm
+    simp only [hm, Bool.false_eq_true, if_false]
+    exact hfix r this
+
+end UpsertShape
+
+
+/-- `StmtRestores` for a statement that records further items (`extraItems`) besides its main one:
+    compensating the extra items takes (a permutation of) the new table to an intermediate table `tm`,
+    and compensating the main item takes that to the old table -/
+def StmtRestoresX (sc : Schema) (cfg : Cfg) (t t' : Table) (item : Item) (extra : List Item) : Prop :=
+  (PkUnique sc t' ∧ ∀ r ∈ t', r.length = sc.ncols) ∧
+  ∃ tm : Table,
+    (extra = [] → tm = t') ∧
+    (∀ u : Table, u.Perm t' → ∃ u1, undoFold sc cfg u extra.reverse = (u1, true) ∧ u1.Perm tm) ∧
+    (item.nonEmpty = false → tm = t) ∧
+    (item.nonEmpty = true → ∀ u : Table, u.Perm tm →
+      ∃ u' res, undoItem sc cfg u item = (u', res) ∧ (res = .done ∨ res = .skipped) ∧ u'.Perm t)
+
+theorem upsert_restore (sc : Schema) (cfg : Cfg) (t : Table) (args : Args)
+    (rows : List (List Expr)) (assign : List (Nat × UpSrc)) (t' : Table) (item : Item) (keys : List Key)
+    (hu : PkUnique sc t) (hsh : ∀ r ∈ t, r.length = sc.ncols)
+    (hrows : ∀ es ∈ rows, es.length = sc.ncols) (ha : ∀ p ∈ assign, p.1 ∉ sc.pk)
+    (h : stmtPhase1 sc cfg t args (.upsert rows assign) = .ok (t', item, keys)) :
+    StmtRestoresX sc cfg t t' item (extraItems sc t t' args (.upsert rows assign)) := by
+  simp only [stmtPhase1, apply, Except.ok.injEq, Prod.mk.injEq] at h
+  obtain ⟨rfl, rfl, rfl⟩ := h
+  simp only [extraItems]
+  have hnl : ∀ r ∈ rows.map (fun es => es.map (evalE [] args)), r.length = sc.ncols := by
+    intro r hr
+    obtain ⟨es, hes, rfl⟩ := List.mem_map.1 hr
+    simpa using hrows es hes
+  generalize rows.map (fun es => es.map (evalE [] args)) = news at hnl ⊢
+  obtain ⟨g, ins, h1, h2, h3, h4, h5⟩ := upsert_fold sc assign ha news t
+  rw [h1]
+  have hg : ∀ r, keyOf sc (g r) = keyOf sc r := fun r => (h2 r).1
+  have hinsK : ∀ x ∈ ins, keyOf sc x ∈ news.map (keyOf sc) := fun x hx => (h4 x hx).1
+  have hinsT : ∀ x ∈ ins, keyOf sc x ∉ t.map (keyOf sc) := fun x hx => (h4 x hx).2.1
+  have hinsL : ∀ x ∈ ins, x.length = sc.ncols := by
+    intro x hx
+    obtain ⟨r, hr, hl⟩ := (h4 x hx).2.2
+    rw [hl]; exact hnl r hr
+  have hshg : ∀ r ∈ t.map g, r.length = sc.ncols := by
+    intro r hr
+    obtain ⟨r0, hr0, rfl⟩ := List.mem_map.1 hr
+    rw [(h2 r0).2]; exact hsh r0 hr0
+  have hug : PkUnique sc (t.map g) := by
+    have := ups_pkUnique sc t g [] hu hg (by intro x hx; cases hx) (by simp)
+    simpa using this
+  have hU : PkUnique sc (t.map g ++ ins) := ups_pkUnique sc t g ins hu hg hinsT h5
+  have hS : ∀ r ∈ t.map g ++ ins, r.length = sc.ncols := by
+    intro r hr
+    rcases List.mem_append.1 hr with hr | hr
+    · exact hshg r hr
+    · exact hinsL r hr
+  rw [ups_filter_sel sc t _ g ins hg hinsK,
+    ups_filter_hit sc t g ins _ (fun r hr => (List.mem_filter.1 hr).1) hg hinsT,
+    ups_filter_ins sc t _ g ins hu hg (fun x hx => ⟨hinsK x hx, hinsT x hx⟩)]
+  generalize hK : news.map (keyOf sc) = K at *
+  refine ⟨⟨hU, hS⟩, ?_⟩
+  by_cases hhit : t.filter (fun r => K.contains (keyOf sc r)) = []
+  · -- no key existed: a plain INSERT of `ins`
+    have hid : t.map g = t := by
+      have : t.map g = t.map id := by
+        apply List.map_congr_left
+        intro r hr
+        apply h3
+        intro hmem
+        have := List.filter_eq_nil_iff.1 hhit r hr
+        exact this (by simpa using hmem)
+      simpa using this
+    simp only [hhit, List.isEmpty_nil, List.map_nil, List.nil_append, Bool.true_or, if_true, hid]
+    refine ⟨t ++ ins, fun _ => rfl, fun u hp => ⟨u, rfl, hp⟩, ?_, ?_⟩
+    · intro hne
+      have : ins = [] := by simpa [Item.nonEmpty, List.isEmpty_iff] using hne
+      simp [this]
+    · intro hne u hp
+      have hnn : ins ≠ [] := by
+        intro hnil; rw [hnil] at hne; simp [Item.nonEmpty] at hne
+      exact undo_insert_core sc cfg t ins (hid ▸ hU) hnn u hp
+  · -- some keys existed: an UPDATE item for those, and an INSERT item for the inserted rows
+    have hemp1 : (t.filter (fun r => K.contains (keyOf sc r))).isEmpty = false := by
+      simpa [List.isEmpty_iff] using hhit
+    have hemp2 : ((t.filter (fun r => K.contains (keyOf sc r))).map (keyOf sc)).isEmpty = false := by
+      simpa [List.isEmpty_iff] using hhit
+    simp only [hemp1, hemp2, Bool.false_eq_true, if_false, Bool.false_or]
+    refine ⟨t.map g, ?_, ?_, ?_, ?_⟩
+    · intro hex
+      by_cases hi : ins = []
+      · simp [hi]
+      · have : ins.isEmpty = false := by simpa [List.isEmpty_iff] using hi
+        simp [this] at hex
+    · intro u hp
+      by_cases hi : ins = []
+      · subst hi
+        exact ⟨u, by simp [undoFold], by simpa using hp⟩
+      · have : ins.isEmpty = false := by simpa [List.isEmpty_iff] using hi
+        simp only [this, Bool.false_eq_true, if_false, List.reverse_cons, List.reverse_nil, List.nil_append]
+        obtain ⟨u', res, hit, hres, hp'⟩ := undo_insert_core sc cfg (t.map g) ins hU hi u hp
+        exact ⟨u', by simpa [undoFold] using undoStep_ok sc cfg u u' _ res hit hres, hp'⟩
+    · intro hne
+      exfalso
+      revert hne
+      cases hf : t.filter (fun r => K.contains (keyOf sc r)) with
+      | nil => exact absurd hf hhit
+      | cons a as => simp [Item.nonEmpty]
+    · intro _ u hp
+      rw [ups_map_eq_updated sc t K g h3] at hp
+      refine undo_update_core sc t (fun r => K.contains (keyOf sc r)) g cfg (allCols sc) hu
+        (fun r _ => (h2 r).2) (fun r _ => hg r) ?_ hhit u hp
+      intro r hr j hj
+      by_cases hjp : j ∈ sc.pk
+      · right
+        have := hg r
+        simp only [keyOf] at this
+        exact List.map_inj_left.1 this j hjp
+      · left
+        refine ⟨?_, hjp⟩
+        rw [hsh r hr] at hj
+        simpa [allCols] using hj
+
+/-! ### one statement, any kind -/
+
+/-- what the SQL layer guarantees about a statement (same as `Props.C01.WFStmt`) -/
+def StmtWF (sc : Schema) : Stmt → Prop
+  | .update sets _ => ∀ p ∈ sets, p.1 < sc.ncols ∧ p.1 ∉ sc.pk
+  | .delete _ => True
+  | .insert rows => ∀ es ∈ rows, es.length = sc.ncols
+  | .failing _ => True
+  | .upsert rows assign =>    -- INSERT … ON DUPLICATE KEY UPDATE: full rows, no key column assigned
+    (∀ es ∈ rows, es.length = sc.ncols) ∧ ∀ p ∈ assign, p.1 < sc.ncols ∧ p.1 ∉ sc.pk
+  | .updateLim sets _ _ _ => ∀ p ∈ sets, p.1 < sc.ncols ∧ p.1 ∉ sc.pk   -- … ORDER BY … LIMIT n
+  | .deleteLim _ _ _ => True
+
+theorem restoresX_of_restores {sc : Schema} {cfg : Cfg} {t t' : Table} {item : Item}
+    (h : StmtRestores sc cfg t t' item) : StmtRestoresX sc cfg t t' item [] :=
+  ⟨h.1, t', fun _ => rfl, fun u hp => ⟨u, rfl, hp⟩, h.2.1, h.2.2⟩
+
+theorem restores_of_restoresX {sc : Schema} {cfg : Cfg} {t t' : Table} {item : Item} {extra : List Item}
+    (h : StmtRestoresX sc cfg t t' item extra) (hx : extra = []) : StmtRestores sc cfg t t' item := by
+  obtain ⟨hwf, tm, h1, _, h3, h4⟩ := h
+  have := h1 hx
+  subst this
+  exact ⟨hwf, h3, h4⟩
+
+/-- every statement kind: phase one, then the compensation of the extra items and of the main item -/
+theorem stmt_restore_x (sc : Schema) (cfg : Cfg) (t : Table) (args : Args) (s : Stmt)
+    (t' : Table) (item : Item) (keys : List Key)
+    (hu : PkUnique sc t) (hsh : ∀ r ∈ t, r.length = sc.ncols) (hs : StmtWF sc s)
+    (h : stmtPhase1 sc cfg t args s = .ok (t', item, keys)) :
+    StmtRestoresX sc cfg t t' item (extraItems sc t t' args s) := by
+  cases s with
+  | update sets w => exact restoresX_of_restores (update_restore sc cfg t args sets w t' item keys hu hsh hs h)
+  | delete w => exact restoresX_of_restores (delete_restore sc cfg t args w t' item keys hu hsh h)
+  | insert rows => exact restoresX_of_restores (insert_restore sc cfg t args rows t' item keys hu hsh hs h)
+  | failing s => simp [stmtPhase1] at h
+  | upsert rows assign =>
+    exact upsert_restore sc cfg t args rows assign t' item keys hu hsh hs.1 (fun p hp => (hs.2 p hp).2) h
+  | updateLim sets w ord lim =>
+    exact restoresX_of_restores (updateLim_restore sc cfg t args sets w ord lim t' item keys hu hsh hs h)
+  | deleteLim w ord lim =>
+    exact restoresX_of_restores (deleteLim_restore sc cfg t args w ord lim t' item keys hu hsh h)
+
+/-- a statement that recorded no extra item (every kind but a mixed INSERT … ON DUPLICATE KEY UPDATE):
+    its one item restores the table -/
+theorem stmt_restore (sc : Schema) (cfg : Cfg) (t : Table) (args : Args) (s : Stmt)
+    (t' : Table) (item : Item) (keys : List Key)
+    (hu : PkUnique sc t) (hsh : ∀ r ∈ t, r.length = sc.ncols) (hs : StmtWF sc s)
+    (h : stmtPhase1 sc cfg t args s = .ok (t', item, keys))
+    (hx : extraItems sc t t' args s = []) : StmtRestores sc cfg t t' item :=
+  restores_of_restoresX (stmt_restore_x sc cfg t args s t' item keys hu hsh hs h) hx
+
+/-- the new table is well-formed -/
+theorem stmt_wf_after (sc : Schema) (cfg : Cfg) (t : Table) (args : Args) (s : Stmt)
+    (t' : Table) (item : Item) (keys : List Key)
+    (hu : PkUnique sc t) (hsh : ∀ r ∈ t, r.length = sc.ncols) (hs : StmtWF sc s)
+    (h : stmtPhase1 sc cfg t args s = .ok (t', item, keys)) :
+    PkUnique sc t' ∧ ∀ r ∈ t', r.length = sc.ncols :=
+  (stmt_restore_x sc cfg t args s t' item keys hu hsh hs h).1
+
+/-- only INSERT … ON DUPLICATE KEY UPDATE records extra items -/
+theorem extraItems_of_not_upsert (sc : Schema) (t t' : Table) (args : Args) (s : Stmt)
+    (hs : ∀ rows assign, s ≠ .upsert rows assign) : extraItems sc t t' args s = [] := by
+  cases s <;> first | rfl | exact absurd rfl (hs _ _)
+
+/-- the items a statement contributes to the branch, compensated last first, restore the table -/
+theorem restoresX_fold {sc : Schema} {cfg : Cfg} {t t' : Table} {item : Item} {extra : List Item}
+    (h : StmtRestoresX sc cfg t t' item extra) (u : Table) (hp : u.Perm t') :
+    ∃ u', undoFold sc cfg u ((if item.nonEmpty then [item] else []) ++ extra).reverse = (u', true) ∧
+      u'.Perm t := by
+  obtain ⟨_, tm, _, h2, h3, h4⟩ := h
+  obtain ⟨u1, hf1, hp1⟩ := h2 u hp
+  rw [List.reverse_append, undoFold_append_ok sc cfg u u1 _ _ hf1]
+  cases hne : item.nonEmpty
+  · simp only [Bool.false_eq_true, if_false, List.reverse_nil]
+    exact ⟨u1, rfl, h3 hne ▸ hp1⟩
+  · simp only [if_true, List.reverse_cons, List.reverse_nil, List.nil_append]
+    obtain ⟨u', res, hit, hres, hp'⟩ := h4 hne u1 hp1
+    refine ⟨u', ?_, hp'⟩
+    have := undoFold_snoc sc cfg u1 [] item
+    simp only [List.nil_append] at this
+    rw [this]
+    exact undoStep_ok sc cfg u1 u' item res hit hres
+
+/-! ### one branch -/
 
 theorem local_restore (sc : Schema) (cfg : Cfg) : ∀ (ltx : LocalTx) (t t' : Table) (b : Branch),
     PkUnique sc t → (∀ r ∈ t, r.length = sc.ncols) → (∀ p ∈ ltx, StmtWF sc p.1) →
@@ -718,21 +1178,17 @@ theorem local_restore (sc : Schema) (cfg : Cfg) : ∀ (ltx : LocalTx) (t t' : Ta
       · rename_i t2 b' h2
         simp only [Except.ok.injEq, Prod.mk.injEq] at h
         obtain ⟨rfl, rfl⟩ := h
-        obtain ⟨⟨hu1, hsh1⟩, hempty, hundo⟩ :=
-          stmt_restore sc cfg t args s t1 item keys hu hsh (hs (s, args) (by simp)) h1
+        have hX := stmt_restore_x sc cfg t args s t1 item keys hu hsh (hs (s, args) (by simp)) h1
+        obtain ⟨hu1, hsh1⟩ := hX.1
         obtain ⟨hwf2, hrest⟩ := ih t1 t2 b' hu1 hsh1 (fun q hq => hs q (by simp [hq])) h2
         refine ⟨hwf2, ?_⟩
         intro u hp
         obtain ⟨u1, hf1, hp1⟩ := hrest u hp
-        have hex := extraItems_wf sc t t1 args s (hs (s, args) (by simp))
-        cases hne : item.nonEmpty
-        · simp only [Bool.false_eq_true, if_false, hex, List.nil_append]
-          exact ⟨u1, hf1, hempty hne ▸ hp1⟩
-        · simp only [if_true, hex, List.append_nil, List.singleton_append, List.reverse_cons]
-          obtain ⟨u', res, hit, hres, hp'⟩ := hundo hne u1 hp1
-          refine ⟨u', ?_, hp'⟩
-          rw [undoFold_snoc, hf1]
-          exact undoStep_ok sc cfg u1 u' item res hit hres
+        obtain ⟨u', hf', hp'⟩ := restoresX_fold hX u1 hp1
+        refine ⟨u', ?_, hp'⟩
+        simp only [List.reverse_append (bs := b'.items)]
+        rw [undoFold_append_ok sc cfg u u1 _ _ hf1]
+        exact hf'
 
 /-- the same for a local transaction that carries on after failed statements -/
 theorem lenient_restore (sc : Schema) (cfg : Cfg) : ∀ (ltx : LocalTx) (t : Table),
@@ -752,21 +1208,17 @@ theorem lenient_restore (sc : Schema) (cfg : Cfg) : ∀ (ltx : LocalTx) (t : Tab
     split
     · exact ih t hu hsh (fun q hq => hs q (by simp [hq]))
     · rename_i t1 item keys h1
-      obtain ⟨⟨hu1, hsh1⟩, hempty, hundo⟩ :=
-        stmt_restore sc cfg t args s t1 item keys hu hsh (hs (s, args) (by simp)) h1
+      have hX := stmt_restore_x sc cfg t args s t1 item keys hu hsh (hs (s, args) (by simp)) h1
+      obtain ⟨hu1, hsh1⟩ := hX.1
       obtain ⟨hwf2, hrest⟩ := ih t1 hu1 hsh1 (fun q hq => hs q (by simp [hq]))
       refine ⟨hwf2, ?_⟩
       intro u hp
       obtain ⟨u1, hf1, hp1⟩ := hrest u hp
-      have hex := extraItems_wf sc t t1 args s (hs (s, args) (by simp))
-      cases hne : item.nonEmpty
-      · simp only [Bool.false_eq_true, if_false, hex, List.nil_append]
-        exact ⟨u1, hf1, hempty hne ▸ hp1⟩
-      · simp only [if_true, hex, List.append_nil, List.singleton_append, List.reverse_cons]
-        obtain ⟨u', res, hit, hres, hp'⟩ := hundo hne u1 hp1
-        refine ⟨u', ?_, hp'⟩
-        rw [undoFold_snoc, hf1]
-        exact undoStep_ok sc cfg u1 u' item res hit hres
+      obtain ⟨u', hf', hp'⟩ := restoresX_fold hX u1 hp1
+      refine ⟨u', ?_, hp'⟩
+      simp only [List.reverse_append (bs := (localPhase1Lenient sc cfg t1 rest).2.1.items)]
+      rw [undoFold_append_ok sc cfg u u1 _ _ hf1]
+      exact hf'
 
 /-! ### the global transaction -/
 
